@@ -12,7 +12,7 @@ import struct
 from bumble import att
 from contracts.c10_reply import (ATTR, ATTR_LIST, BEARER, ERR_INLINE, GHOST, HANDLERS, MOD, RUN_IN_TASK, SERVER, UUID_T, attr_read, attr_write, script_at,
                                  srv_get_attribute)
-from pyvc.contracts import Any, Bool, Bytes, Callback, Inst, Int, IntRange, ListOf, OneOf, OrUnbound, TupleOf, bound, contract, forall, implies, model
+from pyvc.contracts import Any, Bool, Bytes, BytesN, Callback, ConcList, Inst, Int, IntRange, ListOf, OneOf, OrUnbound, TupleOf, bound, contract, forall, implies, model
 
 ENVIRONMENT = [
     'the length of b\'\'.join(xs) for a list of symbolic length is the sum of the lengths of its elements (model of the '
@@ -69,14 +69,14 @@ def read_by_type_inv(bearer, attributes, entry_size, pdu_space_available, old, g
 
 def size_contract(name, request_model, **kw):
     target = f'bumble.gatt_server:Server.{name}'
+    kw.setdefault('requires', lambda ghost: [ghost.nreads >= 0, ghost.nwrites >= 0, ghost.ngets >= 0])
     contract(
         target,
-        key=target + '@C10size',
+        key=target + '@C10size' + kw.pop('key_suffix', ''),
         prop='C10',
         profile='value',
         params=dict(self=SERVER_S, bearer=BEARER, request=Inst(request_model)),
         ghost=SIZE_GHOST,
-        requires=lambda ghost: [ghost.nreads >= 0, ghost.nwrites >= 0, ghost.ngets >= 0],
         ensures=within_mtu,
         ensures_names=SIZE_NAMES,
         # the escapes of ATT_Error are part 1's findings: here only the sizes of what is sent
@@ -141,6 +141,10 @@ def wire4(entries):
     return len(b''.join([struct.pack('<HH', h, e) + v for h, e, v in entries]))
 
 
+def first_value_len(attributes):
+    return len(attributes[0][2]) if len(attributes) > 0 else 0
+
+
 def read_by_group_type_inv(bearer, attributes, pdu_space_available, old, ghost, _i):
     return [
         _i >= 0,
@@ -149,7 +153,7 @@ def read_by_group_type_inv(bearer, attributes, pdu_space_available, old, ghost, 
         pdu_space_available >= 0,
         forall(0, len(attributes), lambda j: 0 <= attributes[j][0] and attributes[j][0] <= 0xFFFF and 0 <= attributes[j][1] and attributes[j][1] <= 0xFFFF),
         wire4(attributes) == bearer.att_mtu - 2 - pdu_space_available,
-        implies(len(attributes) > 0, len(attributes[0][2]) <= 251),
+        first_value_len(attributes) <= 251,
     ]
 
 
@@ -178,4 +182,72 @@ size_contract(
     'bumble.att:ATT_Read_Multiple_Request#c10',
     invariants={0: read_multiple_inv},
     loop_locals={0: dict(values=ListOf(Bytes))},
+)
+
+
+def wire_lv(entries):
+    """octets of a Length Value Tuple List: 2 + len(value) each (Vol 3 Part F 3.4.4.12)"""
+    return len(b''.join([struct.pack('<H', n) + v for n, v in entries]))
+
+
+def read_multiple_variable_inv(bearer, length_value_tuple_list, pdu_space_available, old, ghost, _i):
+    return [
+        _i >= 0,
+        ghost.nresp == old.ghost.nresp,
+        ghost.nreads >= 0,
+        ghost.ngets >= 0,
+        pdu_space_available >= 0,
+        forall(0, len(length_value_tuple_list), lambda j: 0 <= length_value_tuple_list[j][0] and length_value_tuple_list[j][0] <= 0xFFFF),
+        wire_lv(length_value_tuple_list) == bearer.att_mtu - 1 - pdu_space_available,
+    ]
+
+
+size_contract(
+    'on_att_read_multiple_variable_request',
+    'bumble.att:ATT_Read_Multiple_Variable_Request#c10',
+    # Vol 3 Part F 3.2.9: an attribute value is at most 512 octets (its length is sent in 16 bits)
+    requires=lambda ghost: [ghost.nreads >= 0, ghost.nwrites >= 0, ghost.ngets >= 0, 0 <= ghost.vmax and ghost.vmax <= 512],
+    invariants={0: read_multiple_variable_inv},
+    loop_locals={0: dict(length_value_tuple_list=ListOf(TupleOf(Int, Bytes)))},
+)
+
+for _name in ('on_att_read_request', 'on_att_read_blob_request', 'on_att_write_request', 'on_att_exchange_mtu_request'):
+    size_contract(_name, f'bumble.att:{dict((n, r) for n, t, r in HANDLERS)[_name].__name__}#c10')
+
+
+# bounded witness (NOT part of the proof): the same handler on a request naming exactly two handles, both found and
+# readable, with values of 10 and 20 octets and any ATT_MTU -- the loop is unrolled, nothing is abstracted, so a violation of the size bound comes with an exact,
+# replayable counter-model
+def two_read(ghost, bearer):
+    ghost.nreads = ghost.nreads + 1
+    if ghost.nreads == 1:
+        return ghost.v0
+    return ghost.v1
+
+
+model('bumble.att:Attribute#c10two', fields={}, methods={'read_value': Callback('read_value', effect=two_read, is_async=True)})
+model(
+    'bumble.gatt_server:Server#c10two',
+    fields={},
+    methods={
+        'get_attribute': Callback('get_attribute', effect=lambda ghost, handle: ghost.attr),
+        'send_response': Callback('send_response', effect=size_response),
+    },
+)
+model('bumble.att:ATT_Read_Multiple_Variable_Request#c10two', fields=dict(set_of_handles=ConcList(IntRange(0, 0xFFFF), 2)))
+T_RMV = 'bumble.gatt_server:Server.on_att_read_multiple_variable_request'
+contract(
+    T_RMV,
+    key=T_RMV + '@C10size/two-handles',
+    prop='C10',
+    params=dict(self=Inst('bumble.gatt_server:Server#c10two'), bearer=Inst('bumble.device:Connection#c10'), request=Inst('bumble.att:ATT_Read_Multiple_Variable_Request#c10two')),
+    ghost=dict(nresp=Int, rlen=Int, rmtu=Int, nreads=Int, v0=BytesN(10), v1=BytesN(20), attr=Inst('bumble.att:Attribute#c10two')),
+    requires=lambda ghost: [ghost.nreads == 0],
+    ensures=within_mtu,
+    ensures_names=SIZE_NAMES,
+    raises={},
+    modifies=['ghost.nresp', 'ghost.rlen', 'ghost.rmtu', 'ghost.nreads'],
+    inline=PDU_INLINE,
+    decorators_ok=RUN_IN_TASK,
+    note='bounded stand-in (2 handles, both readable, values of 10 and 20 octets, any ATT_MTU): detection and replay only',
 )
